@@ -6,6 +6,9 @@ import (
 	"fmt"
 	"go/types"
 	"net"
+	"os"
+	"path/filepath"
+	"strings"
 	"strconv"
 
 	"golang.org/x/tools/go/ssa"
@@ -311,13 +314,46 @@ func init() {
 	// loading the subnet file is environment: a reload yields a fresh selector (or fails)
 	reg(repoMod+"/pkg/phantoms.GetPhantomSubnetSelector", func(w *World, t *Thread, fr *frame, fn *ssa.Function, args []Value) Value {
 		st := fn.Signature.Results().At(0).Type()
-		if w.decideBool(w.tt.Fresh("subnetfile_unreadable", 0), "subnet file load") {
+		var loads []bool
+		if v, ok := w.ext["subnetloads"]; ok {
+			loads = v.([]bool)
+		}
+		failed := w.decideBool(w.freshND("subnet-file-unreadable", "bool", 0), "subnet file load")
+		w.ext["subnetloads"] = append(loads[:len(loads):len(loads)], failed)
+		if failed {
 			return Tuple{(*Value)(nil), w.mkError("error opening configuration file")}
 		}
 		cell := new(Value)
 		*cell = w.zero(deref(st))
 		mt := deref(st).Underlying().(*types.Struct).Field(0).Type().Underlying().(*types.Map)
 		(*cell).(Struct)[0] = &Map{kt: mt.Key(), vt: mt.Elem(), ents: []mapEnt(nil)}
+		return Tuple{cell, w.nilError()}
+	})
+	reg("verifnd.SubnetLoadFailed", func(w *World, t *Thread, fr *frame, fn *ssa.Function, args []Value) Value {
+		i := int(w.concreteInt(fr, args[0], "index"))
+		if v, ok := w.ext["subnetloads"]; ok && i < len(v.([]bool)) {
+			return w.tt.Bool(v.([]bool)[i])
+		}
+		return w.tt.F
+	})
+	reg("verifnd.ShippedList", func(w *World, t *Thread, fr *frame, fn *ssa.Function, args []Value) Value {
+		key := w.concStr(fr, args[0], "key")
+		b, err := os.ReadFile(filepath.Join(w.pi.mirror, "cmd", "application", "app_config.toml"))
+		if err != nil {
+			return []Value(nil)
+		}
+		out := []Value{}
+		for _, s := range parseTomlStringList(string(b), key) {
+			out = append(out, Str{s: s})
+		}
+		return out
+	})
+	reg("github.com/oschwald/geoip2-golang.Open", func(w *World, t *Thread, fr *frame, fn *ssa.Function, args []Value) Value {
+		if w.decideBool(w.freshND("geoip-db-unreadable", "bool", 0), "geoip db") {
+			return Tuple{(*Value)(nil), w.mkError("open geoip database: no such file or directory")}
+		}
+		cell := new(Value)
+		*cell = w.zero(deref(fn.Signature.Results().At(0).Type()))
 		return Tuple{cell, w.nilError()}
 	})
 	reg("os.Setenv", func(w *World, t *Thread, fr *frame, fn *ssa.Function, args []Value) Value {
@@ -337,4 +373,56 @@ func init() {
 	})
 	reg("(*time.Ticker).Stop", func(w *World, t *Thread, fr *frame, fn *ssa.Function, args []Value) Value { return nil })
 	reg("(*time.Ticker).Reset", func(w *World, t *Thread, fr *frame, fn *ssa.Function, args []Value) Value { return nil })
+}
+
+// parseTomlStringList extracts `key = [ "a", "b", ... ]` (comments allowed) - the
+// same reader the native verifnd package uses.
+func parseTomlStringList(src, key string) []string {
+	idx := -1
+	for off := 0; ; {
+		i := strings.Index(src[off:], key)
+		if i < 0 {
+			break
+		}
+		i += off
+		if i == 0 || src[i-1] == '\n' {
+			idx = i
+			break
+		}
+		off = i + 1
+	}
+	if idx < 0 {
+		return nil
+	}
+	rest := src[idx+len(key):]
+	lb := strings.Index(rest, "[")
+	if lb < 0 {
+		return nil
+	}
+	out := []string{}
+	inStr, inComment := false, false
+	cur := ""
+	for _, c := range rest[lb+1:] {
+		switch {
+		case inComment:
+			if c == '\n' {
+				inComment = false
+			}
+		case inStr:
+			if c == '"' {
+				inStr = false
+				out = append(out, cur)
+				cur = ""
+			} else {
+				cur += string(c)
+			}
+		case c == '"':
+			inStr = true
+		case c == '#':
+			inComment = true
+		case c == ']':
+			return out
+		}
+	}
+	return out
 }
